@@ -43,6 +43,9 @@ ASSUMPTIONS = [
     "the record header before the value (type byte, name) is not asserted: the statement only "
     "speaks about the value bytes; an internally consistent change of the header size is therefore "
     "not detectable",
+    "the array area [PEEK(&H35A..B), PEEK(&H35C..D)) must be empty when no array exists and, "
+    "when every live array was dimensioned by a DIM statement of its own, exactly as large as the "
+    "growth observed at those DIMs (ERASE returns the room; no layout knowledge is used)",
     "the checker forces FRE(\"\") when FRE(0) < 30000 so that no collection runs between reading a "
     "string pointer and reading its characters",
 ]
@@ -188,6 +191,7 @@ class Runner(object):
         self.moved = False
         self.nt = False
         self.snapshot = None
+        self.asize = {}       # array name -> observed size of its record + data in the array area
 
     def fail(self, key, msg):
         self.res.fail(key, msg)
@@ -356,6 +360,24 @@ class Runner(object):
             items = [it for it in items if it[3] == ty]
         return items
 
+    def area_size(self):
+        return self.peek16(0x35c) - self.peek16(0x35a)
+
+    def check_area(self, where):
+        """The array area holds exactly the live arrays: sizes observed at DIM time add up."""
+        m = self.m
+        size = self.area_size()
+        if not m.arrays:
+            if size != 0:
+                self.fail('erase.area-not-released', '%s: no array exists but the array area '
+                          '[PEEK(&H35A..B), PEEK(&H35C..D)) still has %d bytes' % (where, size))
+        elif all(n in self.asize for n in m.arrays):
+            exp = sum(self.asize[n] for n in m.arrays)
+            if size != exp:
+                self.fail('erase.area-not-released', '%s: array area has %d bytes, the live arrays '
+                          '%s took %d bytes when they were dimensioned' % (
+                              where, size, sorted(m.arrays), exp))
+
     def do_dim(self, arrs, idx):
         m = self.m
         todo = []
@@ -368,11 +390,19 @@ class Runner(object):
         if not todo:
             self.res.label('skipped-dim')
             return False
+        before = self.area_size()
         self.run(b'DIM ' + b','.join(b'%s(%s)' % (n.encode(), b','.join(b'%d' % d for d in dims))
                                      for n, _, dims in todo), 'step %d' % idx)
+        grown = self.area_size() - before
         for n, ty, dims in todo:
             m.arrays[n] = Arr(n, ty, dims, self.base)
             self.res.label('dims:%d' % len(dims))
+        if len(todo) == 1:
+            # (an array of the same name, type and shape always takes the same room)
+            self.asize[todo[0][0]] = grown
+        else:
+            for n, _, _ in todo:
+                self.asize.pop(n, None)
         self.res.label('dim-arrays:%d' % len(todo))
         return True
 
@@ -458,6 +488,7 @@ class Runner(object):
             for nm in chosen:
                 del m.arrays[nm]
             self.erased = True
+            self.check_area('after step %d (erase %s)' % (idx, ','.join(chosen)))
             self.observe(idx, [], True, 'after step %d (erase %s)' % (idx, ','.join(chosen)))
             # optionally allocate again at once: a stale address record shows as an overlap
             if op.get('redim'):
@@ -645,6 +676,10 @@ KILLS = [
     'memory.py varptr_str_: size byte always 2  => varptr$.encoding',
     'strings.py get_memory: off-by-one offset  => peek.scalar.strdata, peek.array.*.strdata',
     'memory.py swap_: swap only the first two bytes  => value.number, peek.*',
-    'SURVIVES: scalars.py/arrays.py _record_size +1: header grows by one byte, every pointer shifts consistently; the statement does not cover the record header',
+    'arrays.py erase_: address records of later arrays moved up once, for the last name only (ERASE A,B)  => varptr.outside-area.array (REGRESSIONS 1-2 and histories)',
+    'arrays.py erase_: threshold of the move taken from the first erased array for all names  => varptr.outside-area.array, varptr.overlap',
+    'arrays.py erase_: current reduced only for the last erased array  => erase.area-not-released',
+    'arrays.py _record_size +1 (erase_ frees one byte less than DIM took)  => erase.area-not-released',
+    'SURVIVES: scalars.py _record_size +1: header grows by one byte, every pointer shifts consistently; the statement does not cover the record header',
     'SURVIVES: arrays.py index: area *= dimensions[i]+1 (ignoring base): buffers get larger, addresses stay distinct and inside the array area',
 ]
